@@ -34,6 +34,22 @@ CHECKS.update({
     'C08': dict(text='One-step refinement of delete (not found / key exists / removed, other keys untouched) and flush (immediate: nothing visible; '
                      'delay n: every deadline becomes min(old, now+n)); later stores unaffected.', design='5 C08', note=STORE_NOTE),
 })
+WIRE_NOTE = NOTE_COMMON + (' Wire level: one fully symbolic request frame (all 256 opcodes, all header fields) from an arbitrary well-formed '
+             'store state through the real decode -> handle_request -> encode_message; key identity delegated to the map model.')
+CHECKS.update({
+    'C10': dict(text='No feasible panic path (overflow checks on) in the decoder on an arbitrary stream prefix (one-shot and split delivery) nor in '
+                     'decode -> handle -> encode of an arbitrary frame from an arbitrary state under both store variants; only headers passing all '
+                     'validity rules reach a command handler; buffer space is reserved only for bodies within the item limit; socket loops bounded.',
+                design='5 C10', note=WIRE_NOTE + ' Stored values shorter than 2^31 bytes (stated bound). Allocation failure out of scope.'),
+    'C11': dict(text='Every response rope produced by the real handlers/encoder for an arbitrary request and state, parsed back by an independent '
+                     'reader: magic/opcode/opaque/data type, status table, body length = bytes that follow, extras/key/value layout per outcome '
+                     'class; the Encoder twin writes the same bytes. Path witnesses are replayed natively and compared byte for byte.',
+                design='5 C11', note=WIRE_NOTE),
+    'C19': dict(text='Relational one-step check: the same symbolic frame executed with the loud and the quiet opcode from the same arbitrary state '
+                     'gives identical post-states; quiet responses are the loud ones filtered (silent on success/miss, identical apart from the '
+                     'opcode otherwise). Sequences follow by induction on state equality.',
+                design='5 C19', note=WIRE_NOTE),
+})
 NA = {
 }
 ALL = ['C%02d' % i for i in range(1, 21)]
